@@ -27,7 +27,7 @@ def resolve(c):
         if c[:60] and c[:60] in s: return h
     return None
 base = json.load(open(os.path.join(ROOT, "known_findings.json")))
-out = [f for f in base["findings"] if f["property"] == "C18"]
+out = []
 unresolved = []
 for fn in sorted(glob.glob(os.path.join(ROOT, "known_findings.d", "*.json"))):
     for f in json.load(open(fn))["findings"]:
